@@ -5,7 +5,7 @@ From Coq Require Import List Arith Bool Lia.
 From VBase Require Import FieldOps.
 From VModel Require Import Fri.
 From VBase Require Import ZpOps.
-From VProofs Require Import FriIdx FriField FriInterp ZpLaws.
+From VProofs Require Import FriIdx FriField FriInterp FriProver ZpLaws.
 Import ListNotations.
 
 (* ---------------------------------------------------------------- position folding *)
@@ -170,3 +170,16 @@ Proof.
   - split; [apply zp_val_inj; vm_compute; reflexivity|].
     intros H. apply (f_equal zp_val) in H. vm_compute in H. discriminate.
 Qed.
+
+(* ---------------------------------------------------------------- prover reuse *)
+(* prover_reusable: whatever proof build_proof returns, the prover it leaves behind is the one FriProver::new creates
+   (layers and remainder cleared), so the next build_layers does not hit `assert!(self.layers.is_empty())`.  That the
+   second proof equals a fresh prover's proof is then immediate for the model (same function, same state) and is
+   tested on the real crate (correspondence op `twice`, falsifier c). *)
+Theorem C15_prover_reusable : forall (F MT MN : Type) (mt_prove_batch : MT -> list nat -> option MN)
+  (p p' : @prover F MT) positions proof,
+  build_proof MT MN mt_prove_batch p positions = Ok (p', proof) ->
+  p' = prover_new MT (pr_options MT p) /\ pr_layers MT p' = [] /\ pr_remainder MT p' = [] /\
+  fp_remainder proof = pr_remainder MT p /\ fp_partitions proof = 1.
+Proof. exact (@prover_reusable). Qed.
+Print Assumptions C15_prover_reusable.
